@@ -56,7 +56,29 @@ def _run_form(g, ctx, runners=None):
         out = run_sync(g, vals, runner=sr, max_iterations=12, error_handling="continue", **kw)
     calls = sorted(repr(x) for x in ctx.log)
     err = None if out.error is None else type(out.error).__name__
-    return (out.status, repr(sorted((k, repr(v)) for k, v in (out.values or {}).items())), err, tuple(calls))
+    form = (out.status, repr(sorted((k, repr(v)) for k, v in (out.values or {}).items())), err, tuple(calls))
+    # the same object under a RUN-TIME selection (first output), once with what graph.select(that) reports as needed and once
+    # with the first of those names withheld: relatives that differ in bindings must not answer for one another
+    outs = list(g.outputs)
+    if outs and not g.has_cycles:
+        sel = [outs[0]]
+        try:
+            gs = g.select(*sel)
+            v2, kw2 = _canon_values(gs)
+        except Exception as e:  # noqa: BLE001
+            return form + (("rt_select_rejected", type(e).__name__),)
+        runner_fn, rn = (run_async, ar) if (g.has_async_nodes or g.has_interrupts) else (run_sync, sr)
+        ctx.reset()
+        o2 = runner_fn(g, v2, runner=rn, max_iterations=12, error_handling="continue", select=sel, **kw2)
+        rt = [(o2.status, repr(sorted((k, repr(v)) for k, v in (o2.values or {}).items())), None if o2.error is None else type(o2.error).__name__)]
+        req = list(gs.inputs.required)
+        if req:
+            v3 = {k: v for k, v in v2.items() if k != req[0]}
+            ctx.reset()
+            o3 = runner_fn(g, v3, runner=rn, max_iterations=12, error_handling="continue", select=sel, **kw2)
+            rt.append((o3.status, None if o3.error is None else type(o3.error).__name__, len(ctx.log)))
+        form = form + (tuple(rt),)
+    return form
 
 
 def _graph_attrs(g, by_value=False):
